@@ -300,6 +300,11 @@ def explore(F, body, setup=None, limit=64, node=None, stop_at=None, interp_cls=N
                 return True
             if c is sp.false:
                 return False
+            # the same condition over the same values was already decided on this path (a test repeated, or a named boolean used twice)
+            if c in pc:
+                return True
+            if sp.Not(c) in pc:
+                return False
             if pos[0] < len(decisions):
                 d = decisions[pos[0]]
             else:
